@@ -170,3 +170,37 @@ pub fn run_buildhdr(args: &[&str]) -> String {
     };
     format!("{} {}", bytes_to_hex(&d), back)
 }
+
+/// COUNTS q a n x opt: a packet with that many minimal entries per section, written plain and compressed: header bytes + length
+pub fn run_counts(args: &[&str]) -> String {
+    use simple_dns::rdata::{RData, A, OPT};
+    use simple_dns::{Name, Question, ResourceRecord, CLASS, QCLASS, QTYPE, TYPE};
+    let v: Option<Vec<usize>> = args.iter().map(|t| hex_to_u128(t).map(|x| x as usize)).collect();
+    let v = match v {
+        Some(v) if v.len() == 5 => v,
+        _ => return "BADCASE".into(),
+    };
+    let root = || Name::new_with_labels(&[]);
+    let mut p = Packet::new_query(1);
+    for _ in 0..v[0] {
+        p.questions.push(Question::new(root(), QTYPE::TYPE(TYPE::A), QCLASS::CLASS(CLASS::IN), false));
+    }
+    let rr = || ResourceRecord::new(root(), CLASS::IN, 0, RData::A(A { address: 0 }));
+    for _ in 0..v[1] {
+        p.answers.push(rr());
+    }
+    for _ in 0..v[2] {
+        p.name_servers.push(rr());
+    }
+    for _ in 0..v[3] {
+        p.additional_records.push(rr());
+    }
+    if v[4] != 0 {
+        *p.opt_mut() = Some(OPT { udp_packet_size: 512, version: 0, opt_codes: Vec::new() });
+    }
+    let show = |r: simple_dns::Result<Vec<u8>>| match r {
+        Ok(b) => format!("OK {} {:x}", bytes_to_hex(&b[..12.min(b.len())]), b.len()),
+        Err(e) => err_line(&e),
+    };
+    format!("{} | {}", show(p.build_bytes_vec()), show(p.build_bytes_vec_compressed()))
+}
